@@ -77,6 +77,9 @@ type Case struct {
 	// TTL/5: a lease that is not in force while its lock is held is reported like a lapse of the tenure under study
 	// (it has to persist over three runs in a process whose sleep canary is quiet).
 	Crowd int `json:"crowd,omitempty"`
+	// solo only: an unrelated future that is due in an hour is scheduled FarLeadMs before the acquisition and nothing
+	// else is pending: the dispatcher sleeps towards it when the first renewal of the tenure is armed
+	FarLeadMs int `json:"far_lead_ms,omitempty"`
 	// the store under the gate is the Redis client over an in-process miniredis server whose clock is moved forward by
 	// the real time that has passed, once a millisecond (the server keeps the TTL of the lock record, the client sends
 	// it): leases of a few hundred milliseconds must be kept on this backend, too
@@ -233,6 +236,11 @@ func runScenario(cs Case) (o *outcome) {
 		}
 	}
 
+	if cs.FarLeadMs > 0 {
+		farF := timeout.Call(func() {}, time.Hour)
+		defer farF.Cancel()
+		time.Sleep(time.Duration(cs.FarLeadMs) * time.Millisecond)
+	}
 	if cs.Crowd > 0 {
 		longF := timeout.Call(func() {}, time.Hour)
 		defer longF.Cancel()
@@ -315,9 +323,23 @@ func runScenario(cs Case) (o *outcome) {
 		}
 	}
 	okAcq := false
-	if cs.Acq == "lock" {
+	switch cs.Acq {
+	case "lock":
 		okAcq = holder.LockWithCtx(ctx) == nil
-	} else {
+	case "lockc", "tryc":
+		// the context of the acquisition ends right after the acquisition (cancelled, or its deadline passes): the
+		// tenure goes on, the context was for the attempt
+		ctxA, cancelA := context.WithCancel(ctx)
+		if cs.ID%2 == 0 {
+			ctxA, cancelA = context.WithTimeout(ctx, 2*time.Second)
+		}
+		if cs.Acq == "lockc" {
+			okAcq = holder.LockWithCtx(ctxA) == nil
+		} else {
+			okAcq = holder.TryLock(ctxA)
+		}
+		cancelA()
+	default:
 		okAcq = holder.TryLock(ctx)
 	}
 	if !okAcq {
@@ -889,8 +911,13 @@ func generate(seed uint64, thorough bool) []Case {
 		for _, ttl := range []int{1000, 200, 80, 40} {
 			r := prng.New(seed, "C05gen", uint64(round*10000+ttl))
 			acq := func() string {
-				if r.Chance(1, 3) {
+				switch x := r.Intn(12); {
+				case x < 3:
 					return "lock"
+				case x < 5:
+					return "lockc"
+				case x < 6:
+					return "tryc"
 				}
 				return "try"
 			}
@@ -1008,6 +1035,8 @@ func generate(seed uint64, thorough bool) []Case {
 				add(Case{Solo: true, TTLms: ttl, Acq: acq(), End: "unlock", HoldU: r.Range(72, 110), Two: "after", EndK: 1})
 				add(Case{Solo: true, TTLms: ttl, Acq: acq(), End: "unlock", HoldU: r.Range(72, 110), Two: "after", EndK: 2})
 				add(Case{Solo: true, TTLms: ttl, Acq: acq(), End: "unlock", HoldU: r.Range(72, 110), Two: prng.Pick(r, []string{"before", "first"}), EndK: r.Range(1, 2)})
+				// (ix') nothing but an unrelated far-away future in the timer queue when the tenure starts
+				add(Case{Solo: true, TTLms: ttl, Acq: acq(), End: "unlock", HoldU: r.Range(72, 100), FarLeadMs: r.Range(2, 40)})
 				// (ix) a crowd of other held locks and an unrelated far-away future in the same timer queue
 				add(Case{Solo: true, TTLms: ttl, Acq: acq(), End: "unlock", HoldU: r.Range(84, 120), Crowd: r.Range(2, 3)})
 				add(Case{Solo: true, TTLms: ttl, Acq: acq(), End: "unlock", HoldU: r.Range(84, 120), Crowd: r.Range(4, 6)})
@@ -1112,6 +1141,9 @@ func main() {
 		}
 		if cs.Redis {
 			s.Count("backend:redis-over-miniredis")
+		}
+		if cs.FarLeadMs > 0 {
+			s.Count("far-future-alone-in-the-queue")
 		}
 		s.Count(fmt.Sprintf("ttl:%dms", cs.TTLms))
 		s.Count("end:" + cs.End)
